@@ -2,7 +2,7 @@
 PROP = {
     "glue": "G10", "chk": "chk10", "explain": "explain10",
     "gotags": ["shim_udp", "shim_timecache"],
-    "n": {"quick": 1500, "thorough": 40000},
+    "n": {"quick": 1500, "thorough": 20000},
     "rule": "cases = (a) NewConnectionID / ValidConnectionID calls: issued IDs at now - t0 in {-skew-2..-skew+2, -1, 0, 1, 60, 119..122} s +-1 ns "
             "(from the instant of issue and from the embedded whole second) x 7 skews (incl. negative and sub-second), all 64 single-bit flips, "
             "replay from other addresses (IPv4-mapped form, other family, empty), other keys, IDs of length 0..9, year-2106 wrap of the 32-bit timestamp; "
